@@ -92,7 +92,7 @@ PROPS = {
                      "exact comparison of structure and error kinds, float32 numbers vs exact Rat with tolerance 1e-5·max(1,‖·‖∞) and a float-tie guard; save/load through /tmp; non-trivial = "
                      "constructed, ≥2 iterations, some node non-uniform and some node with revealed coalitions on the uniform fallback; distinct by (n, limit, plus, history)"),
             "assumptions": ["float32 rounding is outside the theorems", "np.save / np.load / json trusted",
-                            "whole-tree induction over the two passes of one iteration is _partial (node step, base case, frame, plus-clipping, save/load are proved)"],
+                            "the induction over whole iterations (tree_invariant) is for the repaired policy: stored limit ≤ min(m, limit) and a rank table covering every id"],
             "trusted": ["table length and stored limit are read off the real object and fed to the model (Policy.explicit)"]},
     "C15": {"lean": "ICG.Props.C15", "streams": [("corr_normalize", "C15")], "quick_s": 40, "thorough_s": 600,
             "rule": ("exact sub-stream: integer/dyadic SA games (closure, negative / non-zero singletons, additive, nearly additive) with power-of-two (or 0) surplus, n=1..5, and integer "
